@@ -300,17 +300,20 @@ func newWorld(spec worldSpec) *World {
 			}
 		}
 	}
+	before := time.Now()
 	ca, err := fixture.New(fo)
 	if err != nil {
 		panic(fmt.Sprintf("fixture: %v", err))
 	}
 	if spec.restart {
+		before = time.Now()
 		ca2, err := ca.Restart()
 		if err != nil {
 			panic(fmt.Sprintf("restart: %v", err))
 		}
 		ca = ca2
 	}
+	after := time.Now()
 	if spec.ssh && spec.only == "" && !spec.sshFiles {
 		w.sshUser, w.sshHost = ca.SSHUser, ca.SSHHost
 	}
@@ -322,7 +325,9 @@ func newWorld(spec worldSpec) *World {
 	}
 	w.keyring = append(w.keyring, extra4...)
 	w.ca = ca
-	w.start = ca.Auth.GetInfo().StartTime
+	// the start of the authority as measured around its construction; what the authority reports is
+	// taken only when it is consistent with that
+	w.start, _ = verifiedStart(ca.Auth.GetInfo().StartTime, before, after)
 	// default provisioner "jwk" goes first in the collection
 	def := &Prov{Ty: "jwk", Name: "jwk", Kid: ca.JWK.KeyID, Init: true, SSH: true, jwk: ca.JWK, real: ca.JWKProv, Configured: true}
 	w.provs = append([]*Prov{def}, w.provs...)
